@@ -91,6 +91,9 @@ type Mutant struct {
 	Expect string `json:"expect"` // substring of the obligation key that must be reported
 	Why    string `json:"why"`
 	Patch  string `json:"patch,omitempty"` // alternative: a unified diff relative to /verif (e.g. seeded/…/patch.diff)
+	// Benign: a behaviour-preserving refactor (benign/…/patch.diff): the rules must stay SILENT on it. A report is a false
+	// alarm of the machinery (WARNING), never a verdict about /repo.
+	Benign bool `json:"benign,omitempty"`
 }
 
 // RunMutants applies each mutant of /verif/mutants/<id>/*.json to a scratch copy of the current /repo (one at a time,
@@ -125,6 +128,9 @@ func RunMutants(rep *core.Report, pr *Property, repo, verif string) {
 	for _, m := range rep.Mutants {
 		if m.Status == "survived" {
 			rep.Warn("mutant %s survived (expected a violation with key containing %q; reported %v)", m.Name, m.Expect, m.Reported)
+		}
+		if m.Status == "false-alarm" {
+			rep.Warn("behaviour-preserving refactor %s is reported (false alarm of the machinery): %v", m.Name, m.Reported)
 		}
 	}
 }
@@ -183,7 +189,7 @@ func runMutant(self string, m Mutant, pr *Property, repo, verif string) core.Mut
 	}
 	_ = json.Unmarshal(ev, &parsed)
 	for _, o := range parsed.Coverage.All {
-		if o.Status == core.Violated || o.Status == core.Undecided {
+		if (o.Status == core.Violated || o.Status == core.Undecided) && !o.Known {
 			if o.Rule == "framework" {
 				res.Status = "skipped"
 				res.Why = "mutant does not load/type-check: " + o.Detail
@@ -191,6 +197,13 @@ func runMutant(self string, m Mutant, pr *Property, repo, verif string) core.Mut
 			}
 			res.Reported = append(res.Reported, o.Key)
 		}
+	}
+	if m.Benign {
+		res.Status = "silent"
+		if len(res.Reported) > 0 {
+			res.Status = "false-alarm"
+		}
+		return res
 	}
 	res.Status = "survived"
 	for _, k := range res.Reported {
